@@ -27,15 +27,19 @@ Section ProcessProofs.
   Variables C R : Type.
   Variable run : C -> option R.
   Variable hash : nat -> Z.
+  Variable K : Type.
+  Variable keq : K -> K -> bool.
+  Variable keyof : nat -> option C -> K.
 
-  Notation state := (state C R).
-  Notation event := (event C R).
-  Notation client_get := (client_get C R run hash).
-  Notation cli_run := (cli_run C R run hash).
-  Notation main_run := (main_run C R run).
-  Notation step := (step C R run hash).
-  Notation trace := (trace C R run hash).
+  Notation state := (state C R K).
+  Notation event := (event C R K).
+  Notation client_get := (client_get C R run hash K keq keyof).
+  Notation cli_run := (cli_run C R run hash K).
+  Notation main_run := (main_run C R run K).
+  Notation step := (step C R run hash K keq keyof).
+  Notation trace := (trace C R run hash K keq keyof).
   Notation expected := (expected C R run).
+  Notation key p st := (keyof p (fs_lookup p (files st))).
 
   (* ---------- shape of one client call ---------- *)
   Lemma nth1_client_argv p k : nth_error [AEmpty; AIn p; AOut k] 1 = Some (AIn p).
@@ -45,23 +49,23 @@ Section ProcessProofs.
   Lemma client_get_cases fixed st ci p :
     (nth_error (clients st) ci = None /\ client_get fixed st ci p = (st, NoSuchClient))
     \/ (exists cl r, nth_error (clients st) ci = Some cl /\ caching cl = true
-                     /\ cache_lookup R (hash p) (cache cl) = Some r /\ client_get fixed st ci p = (st, Returned r true))
+                     /\ cache_lookup keq (key p st) (cache cl) = Some r /\ client_get fixed st ci p = (st, Returned r true))
     \/ (exists cl, nth_error (clients st) ci = Some cl
-                   /\ (caching cl = true -> cache_lookup R (hash p) (cache cl) = None)
+                   /\ (caching cl = true -> cache_lookup keq (key p st) (cache cl) = None)
                    /\ ((expected (files st) p = None
                         /\ client_get fixed st ci p =
                            (if fixed then st else mkState DSrc [AEmpty; AIn p; AOut (hash p)] (files st) (clients st), Raised))
                        \/ (exists r, expected (files st) p = Some r
                             /\ client_get fixed st ci p =
                                (mkState (cwd st) (argv st) (files st)
-                                  (replace_nth ci (if caching cl then mkClient true ((hash p, r) :: cache cl) else cl)
+                                  (replace_nth ci (if caching cl then mkClient true ((key p st, r) :: cache cl) else cl)
                                      (clients st)),
                                 Returned r false)))).
   Proof.
     unfold client_get. destruct (nth_error (clients st) ci) as [cl|] eqn:Hn.
     2:{ left. auto. }
     right. destruct (caching cl) eqn:Hc.
-    - destruct (cache_lookup R (hash p) (cache cl)) as [r|] eqn:Hl.
+    - destruct (cache_lookup keq (key p st) (cache cl)) as [r|] eqn:Hl.
       + left. exists cl, r. auto.
       + right. exists cl. split; [reflexivity|]. split; [auto|].
         unfold Process.main_run. simpl. destruct (expected (files st) p) as [r|] eqn:He.
@@ -137,7 +141,7 @@ Section ProcessProofs.
 
   Theorem final_restore : forall ops st,
     forallb only_runs_and_files ops = true ->
-    cwd (final C R run hash true st ops) = cwd st /\ argv (final C R run hash true st ops) = argv st.
+    cwd (final C R run hash K keq keyof true st ops) = cwd st /\ argv (final C R run hash K keq keyof true st ops) = argv st.
   Proof.
     unfold final. induction ops as [|o ops IH]; intros st H; simpl; [auto|].
     simpl in H. apply andb_true_iff in H as [Ho H].
@@ -183,15 +187,162 @@ Section ProcessProofs.
   Definition refines_event (e : event) : Prop :=
     forall p r h, req_path (eop e) = Some p -> eout e = Returned r h -> expected (files (before e)) p = Some r.
 
+  Lemma cli_refines st p :
+    refines_event (mkEvent st (Cli p) (fst (cli_run st p)) (snd (cli_run st p))).
+  Proof.
+    rewrite cli_run_spec. intros q r h Hq H. simpl in Hq, H |- *. inversion Hq; subst q.
+    destruct (expected (files st) p) as [r0|] eqn:He; inversion H; subst; reflexivity.
+  Qed.
+
+  (* with caching off there is nothing to go stale: no hypothesis on writes, none on the key *)
+  Definition nocache (st : state) : Prop := forall cl, In cl (clients st) -> caching cl = false.
+
+  Lemma step_refines_nocache fixed st o :
+    nocache st -> (forall b, o = NewClient b -> b = false) ->
+    refines_event (mkEvent st o (fst (step fixed st o)) (snd (step fixed st o)))
+    /\ nocache (fst (step fixed st o)).
+  Proof.
+    intros Hnc Hb. destruct o as [ci p|p c|p|d|a|b|p];
+      [simpl|simpl|simpl|simpl|simpl|simpl|change (step fixed st (Cli p)) with (cli_run st p)];
+      try (split; [intros q r h H; discriminate|exact Hnc]).
+    - destruct (client_get_cases fixed st ci p)
+        as [[_ E]|[(cl & r & Hn & Hc & Hl & E)|(cl & Hn & Hmiss & [[He E]|(r & He & E)])]]; rewrite E; simpl.
+      + split; [|exact Hnc]. intros q r h _ H. discriminate.
+      + rewrite (Hnc cl (nth_error_In _ _ Hn)) in Hc. discriminate.
+      + split; [intros q r h _ H; discriminate|]. destruct fixed; exact Hnc.
+      + split.
+        * intros q r' h Hq H. simpl in Hq, H. inversion Hq; subst q. inversion H; subst r'. exact He.
+        * intros cl0 Hin0. simpl in Hin0. apply replace_nth_In in Hin0 as [E0|Hin0]; [|auto].
+          rewrite (Hnc cl (nth_error_In _ _ Hn)) in E0. subst cl0. apply (Hnc cl (nth_error_In _ _ Hn)).
+    - split; [intros q r h H; discriminate|].
+      intros cl Hcl. simpl in Hcl. apply in_app_or in Hcl as [Hcl|[E|[]]]; [auto|]. subst cl. simpl. now apply Hb.
+    - split; [apply cli_refines|]. rewrite cli_run_spec. exact Hnc.
+  Qed.
+
+  Theorem trace_refines_nocache fixed : forall ops st,
+    nocache st -> (forall b, In (NewClient b) ops -> b = false) ->
+    Forall refines_event (trace fixed st ops).
+  Proof.
+    induction ops as [|o ops IH]; intros st Hnc Hb; [constructor|].
+    rewrite trace_cons. destruct (step_refines_nocache fixed st o Hnc) as [H1 H2].
+    - intros b ->. apply Hb. now left.
+    - constructor; [exact H1|]. apply IH; auto. intros b H. apply Hb. now right.
+  Qed.
+
+  (* ---------- a cache whose key determines the run is sound, for every history, files rewritten at will ---------- *)
+  Definition run_opt (c : option C) : option R := match c with Some x => run x | None => None end.
+
+  Definition key_sound : Prop :=
+    forall p c p' c', keq (keyof p c) (keyof p' c') = true -> run_opt c = run_opt c'.
+
+  (* invariant: every cached entry is the run of the content its key was made from *)
+  Definition entries_ok (st : state) : Prop :=
+    forall cl, In cl (clients st) -> caching cl = true ->
+    forall k r, In (k, r) (cache cl) -> exists p c, k = keyof p c /\ run_opt c = Some r.
+
+  Lemma cache_lookup_some k (l : list (K * R)) r :
+    cache_lookup keq k l = Some r -> exists k', In (k', r) l /\ keq k k' = true.
+  Proof.
+    induction l as [|[k' r'] t IH]; simpl; [discriminate|].
+    destruct (keq k k') eqn:E.
+    - intros H. inversion H; subst. exists k'. auto.
+    - intros H. destruct (IH H) as (k2 & Hi & Hk). exists k2. auto.
+  Qed.
+
+  Lemma entries_ok_same st st' : clients st' = clients st -> entries_ok st -> entries_ok st'.
+  Proof. unfold entries_ok. intros E H. rewrite E. exact H. Qed.
+
+  Lemma step_refines_sound_key fixed st o :
+    key_sound -> entries_ok st ->
+    refines_event (mkEvent st o (fst (step fixed st o)) (snd (step fixed st o)))
+    /\ entries_ok (fst (step fixed st o)).
+  Proof.
+    intros Hks Hok. destruct o as [ci p|p c|p|d|a|b|p];
+      [simpl|simpl|simpl|simpl|simpl|simpl|change (step fixed st (Cli p)) with (cli_run st p)];
+      try (split; [intros q r h H; discriminate|eapply entries_ok_same; [|exact Hok]; reflexivity]).
+    - destruct (client_get_cases fixed st ci p)
+        as [[_ E]|[(cl & r & Hn & Hc & Hl & E)|(cl & Hn & Hmiss & [[He E]|(r & He & E)])]]; rewrite E; simpl.
+      + split; [|exact Hok]. intros q r h _ H. discriminate.
+      + split; [|exact Hok]. intros q r' h Hq H. simpl in Hq, H. inversion Hq; subst q. inversion H; subst r'.
+        destruct (cache_lookup_some _ _ _ Hl) as (k' & Hi & Hk).
+        destruct (Hok cl (nth_error_In _ _ Hn) Hc k' r Hi) as (p' & c' & -> & Hr).
+        unfold Process.expected. change (run_opt (fs_lookup p (files st)) = Some r).
+        rewrite (Hks _ _ _ _ Hk). exact Hr.
+      + split; [intros q r h _ H; discriminate|].
+        destruct fixed; [exact Hok|]. eapply entries_ok_same; [|exact Hok]; reflexivity.
+      + split.
+        * intros q r' h Hq H. simpl in Hq, H. inversion Hq; subst q. inversion H; subst r'. exact He.
+        * intros cl0 Hin0 Hc0 k r0 Hi0. simpl in Hin0.
+          apply replace_nth_In in Hin0 as [E0|Hin0]; [|exact (Hok cl0 Hin0 Hc0 k r0 Hi0)].
+          destruct (caching cl) eqn:Hc.
+          -- subst cl0. simpl in Hi0. destruct Hi0 as [Hi0|Hi0].
+             ++ inversion Hi0; subst. exists p, (fs_lookup p (files st)). split; [reflexivity|exact He].
+             ++ exact (Hok cl (nth_error_In _ _ Hn) Hc k r0 Hi0).
+          -- subst cl0. congruence.
+    - split; [intros q r h H; discriminate|].
+      intros cl Hcl Hc k r Hi. simpl in Hcl. apply in_app_or in Hcl as [Hcl|[E|[]]].
+      + exact (Hok cl Hcl Hc k r Hi).
+      + subst cl. destruct Hi.
+    - split; [apply cli_refines|]. rewrite cli_run_spec. eapply entries_ok_same; [|exact Hok]; reflexivity.
+  Qed.
+
+  Theorem trace_refines_sound_key fixed : key_sound -> forall ops st,
+    entries_ok st -> Forall refines_event (trace fixed st ops).
+  Proof.
+    intros Hks. induction ops as [|o ops IH]; intros st Hok; [constructor|].
+    rewrite trace_cons. destruct (step_refines_sound_key fixed st o Hks Hok) as [H1 H2].
+    constructor; [exact H1|]. now apply IH.
+  Qed.
+
+  Lemma init_entries_ok d a f : entries_ok (init d a f).
+  Proof. intros cl []. Qed.
+
+  Theorem trace_refines_sound_key_init fixed : key_sound -> forall ops d a f,
+    Forall refines_event (trace fixed (init d a f) ops).
+  Proof. intros Hks ops d a f. apply trace_refines_sound_key; [exact Hks|apply init_entries_ok]. Qed.
+End ProcessProofs.
+
+(* the repaired cache key (path hash AND content) is sound whenever content equality is *)
+Lemma content_key_sound C R (run : C -> option R) hash (ceq : C -> C -> bool) :
+  (forall a b, ceq a b = true -> a = b) ->
+  key_sound C R run (Z * option C) (content_keq ceq) (content_key hash).
+Proof.
+  intros Hc p c p' c' H. unfold content_keq, content_key in H. simpl in H.
+  apply andb_true_iff in H as [_ H]. destruct c as [x|], c' as [y|]; try discriminate; auto.
+  now rewrite (Hc x y H).
+Qed.
+
+Theorem trace_refines_content_key C R (run : C -> option R) hash (ceq : C -> C -> bool) fixed :
+  (forall a b, ceq a b = true -> a = b) -> forall ops d a f,
+  Forall (refines_event C R run (Z * option C))
+         (trace C R run hash (Z * option C) (content_keq ceq) (content_key hash) fixed (init d a f) ops).
+Proof.
+  intros Hc ops d a f. apply trace_refines_sound_key; [now apply content_key_sound|apply init_entries_ok].
+Qed.
+
+(* ---------- the path-keyed cache of the code under test ---------- *)
+Section PathKeyed.
+  Variables C R : Type.
+  Variable run : C -> option R.
+  Variable hash : nat -> Z.
+
+  Notation state := (state C R Z).
+  Notation event := (event C R Z).
+  Notation step := (step C R run hash Z Z.eqb (path_key hash)).
+  Notation trace := (trace C R run hash Z Z.eqb (path_key hash)).
+  Notation expected := (expected C R run).
+  Notation refines_event := (refines_event C R run Z).
+  Notation cli_run := (cli_run C R run hash Z).
+
   (* no file is written or deleted while a caching client holds a result under that file's key *)
   Definition write_safe (e : event) : Prop :=
-    forall p, wpath (eop e) = Some p ->
-    forall cl, In cl (clients (before e)) -> caching cl = true -> cache_lookup R (hash p) (cache cl) = None.
+    forall p, wpath C (eop e) = Some p ->
+    forall cl, In cl (clients (before e)) -> caching cl = true -> cache_lookup Z.eqb (hash p) (cache cl) = None.
 
   (* invariant: every cached entry is the run of the current content of a file with that key *)
   Definition fresh (ps : list nat) (st : state) : Prop :=
     forall cl, In cl (clients st) -> caching cl = true ->
-    forall k r, cache_lookup R k (cache cl) = Some r ->
+    forall k r, cache_lookup Z.eqb k (cache cl) = Some r ->
     exists p, In p ps /\ hash p = k /\ expected (files st) p = Some r.
 
   Definition inj_on (ps : list nat) : Prop :=
@@ -216,8 +367,9 @@ Section ProcessProofs.
       [simpl|simpl|simpl|simpl|simpl|simpl|change (step fixed st (Cli p)) with (cli_run st p)].
     - (* Get *)
       specialize (Hin ci p eq_refl).
-      destruct (client_get_cases fixed st ci p)
-        as [[_ E]|[(cl & r & Hn & Hc & Hl & E)|(cl & Hn & Hmiss & [[He E]|(r & He & E)])]]; rewrite E; simpl.
+      destruct (client_get_cases C R run hash Z Z.eqb (path_key hash) fixed st ci p)
+        as [[_ E]|[(cl & r & Hn & Hc & Hl & E)|(cl & Hn & Hmiss & [[He E]|(r & He & E)])]];
+        unfold path_key in *; rewrite E; simpl.
       + split; [|exact Hfr]. intros q r h _ H. discriminate.
       + split; [|exact Hfr]. intros q r' h Hq H. simpl in Hq, H. inversion Hq; subst q. inversion H; subst r'.
         destruct (Hfr cl (nth_error_In _ _ Hn) Hc _ _ Hl) as (p' & Hp' & Hh & Hex).
@@ -254,10 +406,7 @@ Section ProcessProofs.
       + exact (Hfr cl Hcl Hc k r Hl).
       + subst cl. simpl in Hl. discriminate.
     - (* Cli *)
-      rewrite cli_run_spec. simpl. split.
-      + intros q r h Hq H. simpl in Hq, H |- *. inversion Hq; subst q.
-        destruct (expected (files st) p) as [r0|] eqn:He; inversion H; subst; reflexivity.
-      + eapply fresh_same; [| |exact Hfr]; reflexivity.
+      split; [apply cli_refines|]. rewrite cli_run_spec. eapply fresh_same; [| |exact Hfr]; reflexivity.
   Qed.
 
   Theorem trace_refines ps fixed : inj_on ps -> forall ops st,
@@ -279,43 +428,6 @@ Section ProcessProofs.
     Forall write_safe (trace fixed (init d a f) ops) -> Forall refines_event (trace fixed (init d a f) ops).
   Proof. intros Hinj ops d a f. apply trace_refines; auto. apply init_fresh. Qed.
 
-  (* with caching off there is nothing to go stale: no hypothesis on writes, none on the hash *)
-  Definition nocache (st : state) : Prop := forall cl, In cl (clients st) -> caching cl = false.
-
-  Lemma step_refines_nocache fixed st o :
-    nocache st -> (forall b, o = NewClient b -> b = false) ->
-    refines_event (mkEvent st o (fst (step fixed st o)) (snd (step fixed st o)))
-    /\ nocache (fst (step fixed st o)).
-  Proof.
-    intros Hnc Hb. destruct o as [ci p|p c|p|d|a|b|p];
-      [simpl|simpl|simpl|simpl|simpl|simpl|change (step fixed st (Cli p)) with (cli_run st p)];
-      try (split; [intros q r h H; discriminate|exact Hnc]).
-    - destruct (client_get_cases fixed st ci p)
-        as [[_ E]|[(cl & r & Hn & Hc & Hl & E)|(cl & Hn & Hmiss & [[He E]|(r & He & E)])]]; rewrite E; simpl.
-      + split; [|exact Hnc]. intros q r h _ H. discriminate.
-      + rewrite (Hnc cl (nth_error_In _ _ Hn)) in Hc. discriminate.
-      + split; [intros q r h _ H; discriminate|]. destruct fixed; exact Hnc.
-      + split.
-        * intros q r' h Hq H. simpl in Hq, H. inversion Hq; subst q. inversion H; subst r'. exact He.
-        * intros cl0 Hin0. simpl in Hin0. apply replace_nth_In in Hin0 as [E0|Hin0]; [|auto].
-          rewrite (Hnc cl (nth_error_In _ _ Hn)) in E0. subst cl0. apply (Hnc cl (nth_error_In _ _ Hn)).
-    - split; [intros q r h H; discriminate|].
-      intros cl Hcl. simpl in Hcl. apply in_app_or in Hcl as [Hcl|[E|[]]]; [auto|]. subst cl. simpl. now apply Hb.
-    - rewrite cli_run_spec. simpl. split; [|exact Hnc].
-      intros q r h Hq H. simpl in Hq, H |- *. inversion Hq; subst q.
-      destruct (expected (files st) p) as [r0|] eqn:He; inversion H; subst; reflexivity.
-  Qed.
-
-  Theorem trace_refines_nocache fixed : forall ops st,
-    nocache st -> (forall b, In (NewClient b) ops -> b = false) ->
-    Forall refines_event (trace fixed st ops).
-  Proof.
-    induction ops as [|o ops IH]; intros st Hnc Hb; [constructor|].
-    rewrite trace_cons. destruct (step_refines_nocache fixed st o Hnc) as [H1 H2].
-    - intros b ->. apply Hb. now left.
-    - constructor; [exact H1|]. apply IH; auto. intros b H. apply Hb. now right.
-  Qed.
-
   (* ---------- the result is a function of the content, whatever the history ---------- *)
   Definition safe_history (fixed : bool) (ps : list nat) (st : state) (ops : list (op C)) : Prop :=
     inj_on ps /\ fresh ps st /\ (forall ci p, In (Get ci p) ops -> In p ps) /\ Forall write_safe (trace fixed st ops).
@@ -323,7 +435,7 @@ Section ProcessProofs.
   Theorem result_function_of_content fixed1 fixed2 ps1 ps2 st1 st2 ops1 ops2 e1 e2 p1 p2 r1 r2 h1 h2 :
     safe_history fixed1 ps1 st1 ops1 -> safe_history fixed2 ps2 st2 ops2 ->
     In e1 (trace fixed1 st1 ops1) -> In e2 (trace fixed2 st2 ops2) ->
-    req_path (eop e1) = Some p1 -> req_path (eop e2) = Some p2 ->
+    req_path C (eop e1) = Some p1 -> req_path C (eop e2) = Some p2 ->
     eout e1 = Returned r1 h1 -> eout e2 = Returned r2 h2 ->
     fs_lookup p1 (files (before e1)) = fs_lookup p2 (files (before e2)) ->
     r1 = r2.
@@ -335,7 +447,7 @@ Section ProcessProofs.
     pose proof (T1 e1 In1 p1 r1 h1 Q1 O1) as E1. pose proof (T2 e2 In2 p2 r2 h2 Q2 O2) as E2.
     unfold Process.expected in E1, E2. rewrite Hf in E1. rewrite E1 in E2. now inversion E2.
   Qed.
-End ProcessProofs.
+End PathKeyed.
 
 (* ---------- witnesses: what the faithful model of the PINNED client / of the path-keyed cache does ---------- *)
 
@@ -343,7 +455,7 @@ End ProcessProofs.
 Definition witness_fail : list (op nat) := [NewClient true; Get 0 7].
 
 Lemma restore_pinned_refuted :
-  exists e, In e (trace nat nat (crun [0]) chash false (init (DUser 0) [AUser 0; AUser 1] []) witness_fail)
+  exists e, In e (ptrace [0] false (DUser 0) [AUser 0; AUser 1] witness_fail)
             /\ is_get (eop e) = true
             /\ cwd (after e) = DSrc /\ cwd (before e) = DUser 0
             /\ argv (after e) = [AEmpty; AIn 7; AOut 7%Z] /\ argv (before e) = [AUser 0; AUser 1].
@@ -355,14 +467,14 @@ Qed.
 Lemma restore_fixed_witness :
   forallb (fun e => negb (is_get (eop e)) || (dir_eqb (cwd (after e)) (cwd (before e))
                                               && list_eqb arg_eqb (argv (after e)) (argv (before e))))
-          (trace nat nat (crun [0]) chash true (init (DUser 0) [AUser 0; AUser 1] []) witness_fail) = true.
+          (ptrace [0] true (DUser 0) [AUser 0; AUser 1] witness_fail) = true.
 Proof. vm_compute. reflexivity. Qed.
 
 (* [write c0; get; write c1; get] on one caching client: the second result is the run of c0, not of c1 *)
 Definition witness_stale : list (op nat) := [NewClient true; Write 0 0; Get 0 0; Write 0 1; Get 0 0].
 
 Lemma cache_refines_refuted : forall fixed,
-  exists e p r h, In e (trace nat nat (crun [0; 1]) chash fixed (init (DUser 0) [] []) witness_stale)
+  exists e p r h, In e (ptrace [0; 1] fixed (DUser 0) [] witness_stale)
             /\ eop e = Get 0 p /\ eout e = Returned r h
             /\ expected nat nat (crun [0; 1]) (files (before e)) p = Some 1 /\ r = 0.
 Proof.
@@ -373,7 +485,7 @@ Qed.
 
 (* a hash collision between two requested paths has the same effect (why [inj_on] is a hypothesis) *)
 Lemma cache_collision_witness :
-  exists e p r h, In e (trace nat nat (crun [0; 1]) (fun _ => 0%Z) true (init (DUser 0) [] [])
+  exists e p r h, In e (trace nat nat (crun [0; 1]) (fun _ => 0%Z) Z Z.eqb (path_key (fun _ => 0%Z)) true (init (DUser 0) [] [])
                           [NewClient true; Write 0 0; Write 1 1; Get 0 0; Get 0 1])
             /\ eop e = Get 0 p /\ eout e = Returned r h
             /\ expected nat nat (crun [0; 1]) (files (before e)) p = Some 1 /\ r = 0.
@@ -411,7 +523,7 @@ Proof.
 Qed.
 
 (* the whole session checker: no code reported => every step passed the three per-step checks *)
-Fixpoint steps_ok (okc : list nat) (f : fs nat) (evs : list (event nat nat)) (os : list obs) : Prop :=
+Fixpoint steps_ok {K : Type} (okc : list nat) (f : fs nat) (evs : list (event nat nat K)) (os : list obs) : Prop :=
   match evs, os with
   | e :: evs', b :: os' =>
       obs_matches e b = true /\ check_restore_step (eop e) b = true /\ check_refines_step okc f (eop e) b = true
@@ -420,7 +532,7 @@ Fixpoint steps_ok (okc : list nat) (f : fs nat) (evs : list (event nat nat)) (os
   | _, _ => False
   end.
 
-Lemma session_codes_nil okc : forall evs os i f, session_codes okc i f evs os = [] -> steps_ok okc f evs os.
+Lemma session_codes_nil {K : Type} okc : forall (evs : list (event nat nat K)) os i f, session_codes okc i f evs os = [] -> steps_ok okc f evs os.
 Proof.
   induction evs as [|e evs IH]; destruct os as [|b os]; simpl; intros i f H; auto; try discriminate.
   destruct (obs_matches e b); [|discriminate].
@@ -431,5 +543,5 @@ Qed.
 
 Lemma session_check_sound fixed okc d a ops os :
   session_check fixed okc d a ops os = [] ->
-  steps_ok okc [] (trace nat nat (crun okc) chash fixed (init d a []) ops) os.
+  steps_ok okc [] (ptrace okc fixed d a ops) os.
 Proof. apply session_codes_nil. Qed.
